@@ -22,7 +22,7 @@ from vp_common import REPO, Atom, Ctx, line, run_driver
 
 PROP = 'C09'
 RULE = ('part 1: generated CSV files (3-5 columns, label anywhere, 1-3 batches), modes target-only / pairwise, focus sets, interaction '
-        'order 2, multi-value expansion, small caps, a duplicated (aliased) column in pairwise scope; each ranked in-process under the baseline pool and under adversarial schedules '
+        'order 2, multi-value expansion, small caps, a duplicated (aliased) column in pairwise scope, a sub-sampled estimator with an identifier column; each ranked in-process under the baseline pool and under adversarial schedules '
         '(random evaluation order, random hand-back order, re-seeded shuffle). part 2: the CLI in fresh processes on fixed generated data '
         '(2 batches): configurations pairwise+focus, multi-value, interaction order 2, default, sub-sampled estimator, capped selection, aliased column, noise controls (plain, and with internal_hash wrapped from outside because the plain configuration cannot run); --num_threads in {1,2,4} '
         '(thorough 1..16), PYTHONHASHSEED in {0,1,random}, repeated. Non-trivial = a comparison between two runs that differ in schedule / '
@@ -37,13 +37,13 @@ ASSUMPTIONS = ['purity of scoring (same pair + same batch rows => same float) is
 # ---------------------------------------------------------------------------------------------
 # data
 
-def gen_data(rng: random.Random, nrows, feats, label_pos, multival=None, alias=None):
+def gen_data(rng: random.Random, nrows, feats, label_pos, multival=None, alias=None, uid=None):
     """alias = (copy, source): column `copy` repeats column `source` cell by cell (duplicated / aliased columns are common in
     real feeds; two pairs with the same contents in opposite orientations must still be scored independently)"""
     cols = list(feats)
     cols.insert(min(label_pos, len(cols)), 'label')
     lines = []
-    for _ in range(nrows):
+    for rowno in range(nrows):
         y = rng.randrange(2)
         base = rng.randrange(6)
         vals = []
@@ -57,6 +57,8 @@ def gen_data(rng: random.Random, nrows, feats, label_pos, multival=None, alias=N
                 vals.append(str((base * (j % 2) + y * rng.randrange(3) + rng.randrange(k)) % k))
         if alias:
             vals[cols.index(alias[0])] = vals[cols.index(alias[1])]
+        if uid:
+            vals[cols.index(uid)] = f'u{rowno}'        # identifier column: every row its own value
         lines.append(','.join(vals))
     return cols, ','.join(cols) + '\n' + '\n'.join(lines) + '\n'
 
@@ -66,7 +68,7 @@ def gen_case(rng: random.Random):
     feats = [f'f{i}' for i in range(nf)]
     B = rng.choice([150, 300, 500])
     nb = rng.choice([1, 2, 2, 3])
-    mode = rng.choice(['plain', 'plain', 'focus', 'focus', 'inter2', 'multival', 'smallcap', 'alias', 'alias'])
+    mode = rng.choice(['plain', 'plain', 'focus', 'focus', 'inter2', 'multival', 'smallcap', 'alias', 'alias', 'subuid', 'subuid'])
     c = {'dseed': rng.getrandbits(48), 'feats': feats, 'label_pos': rng.randrange(nf + 1), 'B': B, 'rows': nb * B + rng.choice([0, 0, 7]),
          'target_only': rng.random() < 0.4, 'mode': mode, 'sseed': rng.getrandbits(32)}
     if mode == 'focus':
@@ -76,6 +78,12 @@ def gen_case(rng: random.Random):
         c['multival'] = rng.choice(feats)
     if mode == 'smallcap':
         c['cap'] = rng.choice([1, 2, 3])
+    if mode == 'subuid':
+        # sub-sampled estimator + an identifier column (more distinct values than floor(r*n): the sampler's keep-all branch) in
+        # pairwise scope: per-call state written back into the shared arguments would leak into the pairs scored afterwards
+        c['uid'] = rng.choice(feats)
+        c['ratio'] = rng.choice([0.5, 0.25])
+        c['target_only'] = False
     if mode == 'alias':
         # a duplicated column, pairwise scope, asymmetric (default) heuristic: (a, b) and (b, a_copy) have the same two contents
         # in opposite orientations
@@ -93,11 +101,13 @@ def case_args(c):
         kw['interaction_order'] = 2
     if c.get('multival'):
         kw['explode_multivalue_features'] = c['multival']
+    if c.get('ratio'):
+        kw['mi_stratified_sampling_ratio'] = c['ratio']
     return kw
 
 
 def case_data(c):
-    return gen_data(random.Random(c['dseed']), c['rows'], c['feats'], c['label_pos'], c.get('multival'), c.get('alias'))
+    return gen_data(random.Random(c['dseed']), c['rows'], c['feats'], c['label_pos'], c.get('multival'), c.get('alias'), c.get('uid'))
 
 
 # ---------------------------------------------------------------------------------------------
@@ -209,14 +219,16 @@ def cli_configs(rng: random.Random, thorough):
     feats = ['f0', 'f1', 'f2', 'f3']
     cfgs = []
 
-    def data(multival=None, rows=2200, alias=None):
-        return gen_data(random.Random(rng.getrandbits(48)), rows, feats, rng.randrange(5), multival, alias)[1]
+    def data(multival=None, rows=2200, alias=None, uid=None):
+        return gen_data(random.Random(rng.getrandbits(48)), rows, feats, rng.randrange(5), multival, alias, uid)[1]
     cfgs.append({'name': 'focus-pairwise', 'data': data(), 'args': dict(feature_set_focus='f0,f1,f2,f3', target_ranking_only='False')})
     cfgs.append({'name': 'multivalue-pairwise', 'data': data('f2'), 'args': dict(explode_multivalue_features='f2', target_ranking_only='False')})
     cfgs.append({'name': 'interaction2', 'data': data(), 'args': dict(interaction_order=2, target_ranking_only='True')})
     cfgs.append({'name': 'default-pairwise', 'data': data(), 'args': dict(target_ranking_only='False')})
     # sub-sampled estimator (anything random inside the scorer would make scores depend on which worker took a pair)
     cfgs.append({'name': 'subsampled-mi-pairwise', 'data': data(), 'args': dict(target_ranking_only='False', mi_stratified_sampling_ratio=0.5)})
+    # the same with an identifier column (keep-all branch of the sampler for pairs conditioned on it)
+    cfgs.append({'name': 'subsampled-uid-pairwise', 'data': data(uid='f2'), 'args': dict(target_ranking_only='False', mi_stratified_sampling_ratio=0.5)})
     # more candidate pairs than the per-batch cap (the capped selection must not depend on hash seeds / schedules)
     cfgs.append({'name': 'capped-pairwise', 'data': data(), 'args': dict(target_ranking_only='False', combination_number_upper_bound=6)})
     cfgs.append({'name': 'capped-interaction2', 'data': data(), 'args': dict(interaction_order=2, target_ranking_only='True', combination_number_upper_bound=4)})
